@@ -1360,6 +1360,28 @@ class P(Prop):
         return None
 
     # ---------------------------------------------------------------- shrinking / search
+    @staticmethod
+    def shrink_world(case):
+        ops, nets = case["ops"], case["nets"]
+        used = sorted({k for k, _ in ops})
+        for k in reversed(used):              # drop a whole object (renumbering the later ones)
+            if len(used) > 1:
+                r = lambda j: j - 1 if j > k else j
+                c = {"kind": "world", "nets": nets[:k] + nets[k + 1:], "ops": [[r(j), o] for j, o in ops if j != k]}
+                if world_valid(c):
+                    yield c
+        for i in range(len(ops) - 1, -1, -1):
+            c = dict(case, ops=ops[:i] + ops[i + 1:])
+            if world_valid(c):
+                yield c
+        for i, (k, op) in enumerate(ops):
+            if op[0] in "rdlqhs" and op[-1] != 0:
+                yield dict(case, ops=ops[:i] + [[k, op[:-1] + [0]]] + ops[i + 1:])
+            if op[0] in "rd" and op[4] != 0:
+                yield dict(case, ops=ops[:i] + [[k, op[:4] + [0] + op[5:]]] + ops[i + 1:])
+            if op[0] in "rdl" and op[-3] != "none":
+                yield dict(case, ops=ops[:i] + [[k, op[:-3] + ["none"] + op[-2:]]] + ops[i + 1:])
+
     def shrink(self, case):
         if case["kind"] == "multi":
             subs = case["subs"]
@@ -1373,25 +1395,11 @@ class P(Prop):
                     yield dict(case, subs=subs[:k] + [c] + subs[k + 1:])
             return
         if case["kind"] == "world":
-            ops, nets = case["ops"], case["nets"]
-            used = sorted({k for k, _ in ops})
-            for k in reversed(used):              # drop a whole object (renumbering the later ones)
-                if len(used) > 1:
-                    r = lambda j: j - 1 if j > k else j
-                    c = {"kind": "world", "nets": nets[:k] + nets[k + 1:], "ops": [[r(j), o] for j, o in ops if j != k]}
-                    if world_valid(c):
-                        yield c
-            for i in range(len(ops) - 1, -1, -1):
-                c = dict(case, ops=ops[:i] + ops[i + 1:])
-                if world_valid(c):
+            # while the A* finding is not listed its class is not generated — and not drifted into by shrinking either
+            gate = not self.listed(FINDING_ASTAR) and world_regimes(case)["astar_consistent"] == 0
+            for c in self.shrink_world(case):
+                if world_valid(c) and not (gate and world_regimes(c)["astar_consistent"]):
                     yield c
-            for i, (k, op) in enumerate(ops):
-                if op[0] in "rdlqhs" and op[-1] != 0:
-                    yield dict(case, ops=ops[:i] + [[k, op[:-1] + [0]]] + ops[i + 1:])
-                if op[0] in "rd" and op[4] != 0:
-                    yield dict(case, ops=ops[:i] + [[k, op[:4] + [0] + op[5:]]] + ops[i + 1:])
-                if op[0] in "rdl" and op[-3] != "none":
-                    yield dict(case, ops=ops[:i] + [[k, op[:-3] + ["none"] + op[-2:]]] + ops[i + 1:])
             return
         if case["kind"] == "pq":
             for k in range(len(case["ops"])):
